@@ -1,14 +1,204 @@
-/- C12 — placeholder until Proofs/Manager.lean is in place -/
-import SSEPyVerif.Model.Manager
-import SSEPyVerif.Proofs.Server
+/-
+  C12 — Overlapping connections to one service are serialised and cannot roll state back.
+
+  The transition system of Model/Manager.lean gives the event loop, the clients and the cleanup delay
+  every freedom asyncio allows: any number of connections, any interleaving of opening, sending, closing,
+  lock acquisition, wake-ups, request processing and cleanup start/end.  The theorems hold in every
+  reachable state, i.e. for every schedule.  The handlers, constructor and manager step order are the ones
+  extracted from the source on this run.
+-/
+import SSEPyVerif.Proofs.Manager
 import SSEPyVerif.Generated.ServerIR
 namespace SSEPy.C12
-open SSEPy.ServerIR
+open SSEPy.ServerIR SSEPy.Manager
 
-/-- the manager's step order read from the source today is the one the transition system models -/
-theorem manager_program_is_expected :
-    SSEPy.Generated.serverProgram.mgrCreate = expectedProgram.mgrCreate ∧
-    SSEPy.Generated.serverProgram.mgrCleanup = expectedProgram.mgrCleanup ∧
-    SSEPy.Generated.serverProgram.mgrLockIsCondition = true := by decide
+/-- the tie: the extracted program (handlers, constructor, file managers, manager step order, kind of
+    registry lock) is the one the transition system and its proofs are about -/
+theorem program_is_expected : SSEPy.Generated.serverProgram = expectedProgram := by decide
+
+abbrev G := SSEPy.Generated.serverProgram
+theorem G_eq : G = expectedProgram := program_is_expected
+
+theorem reachable_inv {s : MState} (h : Reachable G s) : J s := by
+  rw [G_eq] at h; exact J_reachable h
+
+/-- (a) Mutual exclusion in arrival order: a request of connection `j` is processed (`deliver j` is
+    enabled) only when every earlier-opened connection has been closed and cleaned up — so no reply ever
+    reaches `j` while an earlier-opened connection is still open. -/
+theorem served_only_after_earlier_closed {s s' : MState} (h : Reachable G s) (j : Nat)
+    (hstep : step G s (.deliver j) = some s') (i : Nat) (hij : i < j) :
+    ∃ ci : CRec, s.conns[i]? = some ci ∧ ci.phase = .done := by
+  have hJ := reachable_inv h
+  simp only [step] at hstep
+  cases hc : s.conns[j]? with
+  | none => simp [hc] at hstep
+  | some c =>
+    simp only [hc] at hstep
+    split at hstep
+    · rename_i hcond
+      exact earlier_done hJ hc (Or.inl hcond.1) i hij
+    · cases hstep
+
+/-- at most one connection is registered / being served at any time -/
+theorem one_at_a_time {s : MState} (h : Reachable G s) (i j : Nat) (ci cj : CRec)
+    (hi : s.conns[i]? = some ci) (hj : s.conns[j]? = some cj)
+    (ai : ci.phase = .serving) (aj : cj.phase = .serving) : i = j :=
+  active_unique (reachable_inv h) hi hj (Or.inl ai) (Or.inl aj)
+
+/-- the reference state the disk denotes -/
+def denoted (d : Disk) : Nat × Option Cfg × Option Edb :=
+  let t := absS { disk := d, conn := none, alive := false }
+  (t.st, t.cfg, t.edb)
+
+theorem denoted_of_shape {d : Disk} {st : Nat} {cfg : Option Cfg} {edb : Option Edb} (h : Shape d st cfg edb) :
+    denoted d = (st, cfg, edb) := by
+  unfold denoted
+  rw [absS_of_shape ({ disk := d, conn := none, alive := false } : SrvD) st cfg edb h]
+
+theorem spec3Msg_mono (t : Spec3) (m : Msg)
+    (hok : (t.st = 0 ∧ t.cfg = none ∧ t.edb = none) ∨ (t.st = 1 ∧ t.edb = none) ∨ t.st = 2) :
+    t.st ≤ (spec3Msg t m).1.st ∧ (∀ c, t.cfg = some c → (spec3Msg t m).1.cfg = some c) ∧
+    (∀ e, t.edb = some e → (spec3Msg t m).1.edb = some e) := by
+  cases m <;> simp only [spec3Msg, Spec3.die] <;> (repeat' split) <;> simp_all <;> omega
+
+/-- (b) Whatever the interleaving, the durable state never moves backwards and an accepted
+    configuration or index is never lost or replaced. -/
+theorem durable_state_monotone {s s' : MState} (h : Reachable G s) (a : Act) (hstep : step G s a = some s') :
+    (denoted s.disk).1 ≤ (denoted s'.disk).1 ∧
+    (∀ c, (denoted s.disk).2.1 = some c → (denoted s'.disk).2.1 = some c) ∧
+    (∀ e, (denoted s.disk).2.2 = some e → (denoted s'.disk).2.2 = some e) := by
+  have hJ := reachable_inv h
+  rw [G_eq] at hstep
+  obtain ⟨st, cfg, edb, hs, hc⟩ := hJ.shape
+  have same : s'.disk = s.disk →
+      ((denoted s.disk).1 ≤ (denoted s'.disk).1 ∧
+       (∀ c, (denoted s.disk).2.1 = some c → (denoted s'.disk).2.1 = some c) ∧
+       (∀ e, (denoted s.disk).2.2 = some e → (denoted s'.disk).2.2 = some e)) :=
+    fun e => by rw [e]; exact ⟨Nat.le_refl _, fun _ h => h, fun _ h => h⟩
+  cases a with
+  | openConn =>
+    obtain ⟨o, hcons, _⟩ := construct_shape s.disk st cfg edb hs
+    simp only [step, hcons, Option.some.injEq] at hstep
+    subst hstep; exact same rfl
+  | enter j =>
+    simp only [step] at hstep
+    cases hcj : s.conns[j]? with
+    | none => simp [hcj] at hstep
+    | some c =>
+      simp only [hcj] at hstep
+      split at hstep
+      · split at hstep <;> (cases hstep; exact same (by simp [setConn, registerConn]))
+      · cases hstep
+  | wake j =>
+    simp only [step] at hstep
+    cases hcj : s.conns[j]? with
+    | none => simp [hcj] at hstep
+    | some c =>
+      simp only [hcj] at hstep
+      split at hstep
+      · cases hstep; exact same (by simp [setConn, registerConn])
+      · cases hstep
+  | send j m =>
+    simp only [step] at hstep
+    cases hcj : s.conns[j]? with
+    | none => simp [hcj] at hstep
+    | some c =>
+      simp only [hcj] at hstep
+      split at hstep
+      · cases hstep; exact same (by simp [setConn])
+      · cases hstep
+  | clientClose j =>
+    simp only [step] at hstep
+    cases hcj : s.conns[j]? with
+    | none => simp [hcj] at hstep
+    | some c =>
+      simp only [hcj] at hstep
+      split at hstep
+      · cases hstep; exact same (by simp [setConn])
+      · cases hstep
+  | finish j =>
+    simp only [step] at hstep
+    cases hcj : s.conns[j]? with
+    | none => simp [hcj] at hstep
+    | some c =>
+      simp only [hcj] at hstep
+      split at hstep
+      · cases hstep; exact same (by simp [setConn])
+      · cases hstep
+  | cleanupStart j =>
+    simp only [step] at hstep
+    cases hcj : s.conns[j]? with
+    | none => simp [hcj] at hstep
+    | some c =>
+      simp only [hcj] at hstep
+      split at hstep
+      · cases hstep; exact same (by simp [setConn])
+      · cases hstep
+  | deliver j =>
+    simp only [step] at hstep
+    cases hcj : s.conns[j]? with
+    | none => simp [hcj] at hstep
+    | some c =>
+      simp only [hcj] at hstep
+      split at hstep
+      · rename_i hcond
+        cases hin : c.inbox with
+        | nil => simp [hin] at hstep
+        | cons m rest =>
+          simp only [hin, Option.some.injEq] at hstep
+          subst hstep
+          obtain ⟨st', cfg', edb', hs', _, _, hsp⟩ :=
+            handleMsg_refines s.disk st cfg edb c.obj m hs (hc j c hcj (Or.inl hcond.1))
+          change (denoted s.disk).1 ≤ (denoted (handleMsg P s.disk c.obj m).1).1 ∧
+            (∀ c', (denoted s.disk).2.1 = some c' → (denoted (handleMsg P s.disk c.obj m).1).2.1 = some c') ∧
+            (∀ e, (denoted s.disk).2.2 = some e → (denoted (handleMsg P s.disk c.obj m).1).2.2 = some e)
+          rw [denoted_of_shape hs, denoted_of_shape hs']
+          have hok : (st = 0 ∧ cfg = none ∧ edb = none) ∨ (st = 1 ∧ edb = none) ∨ st = 2 := by
+            generalize s.disk = d at hs
+            cases hs <;> simp
+          have := spec3Msg_mono { st := st, cfg := cfg, edb := edb, alive := true } m hok
+          rw [hsp] at this
+          exact this
+      · cases hstep
+  | cleanupEnd j =>
+    cases hcj : s.conns[j]? with
+    | none => simp [step, hcj] at hstep
+    | some c =>
+      by_cases hcond : c.phase = .cleaning
+      · have hd := cleanupEnd_disk hJ hcj hcond hstep
+        have hact : Active c.phase := Or.inr (Or.inr hcond)
+        have hs' := closeConn_shape s.disk st cfg edb c.obj hs (hc j c hcj hact).1
+        rw [hd, denoted_of_shape hs, denoted_of_shape hs']
+        exact ⟨Nat.le_refl _, fun _ h => h, fun _ h => h⟩
+      · simp [step, hcj, hcond] at hstep
+
+/-- (c) A search is answered from the index the disk holds in the ready state — the acknowledged one
+    (by (b) it is never replaced) — under the stored configuration. -/
+theorem acknowledged_index_is_searched {s s' : MState} (h : Reachable G s) (j : Nat)
+    (hstep : step G s (.deliver j) = some s') (c : CRec) (hc : s.conns[j]? = some c)
+    (m : Msg) (rest : List Msg) (hin : c.inbox = m :: rest) (cf : Cfg) (e : Edb) (k : Tok)
+    (hres : Out.result cf e k ∈ (handleMsg G s.disk c.obj m).2.2.2.1) :
+    denoted s.disk = (2, some cf, some e) := by
+  have hJ := reachable_inv h
+  rw [G_eq] at hstep hres
+  obtain ⟨st, cfg, edb, hs, hcc⟩ := hJ.shape
+  simp only [step, hc] at hstep
+  split at hstep
+  · rename_i hcond
+    obtain ⟨st', cfg', edb', _, _, ho, _⟩ :=
+      handleMsg_refines s.disk st cfg edb c.obj m hs (hcc j c hc (Or.inl hcond.1))
+    rw [ho] at hres
+    rw [denoted_of_shape hs]
+    cases m <;> simp only [spec3Msg, Spec3.die] at hres <;> (repeat' split at hres) <;> simp_all
+  · cases hstep
+
+/-! ### non-vacuity: two overlapping connections, computed in the kernel on the extracted program -/
+example :
+    let s := run G {} [.openConn, .openConn, .enter 0, .enter 1, .send 1 (.upload 9), .send 0 (.config (some 4)),
+                       .deliver 0, .send 0 (.upload 7), .deliver 0, .clientClose 0, .finish 0, .cleanupStart 0,
+                       .cleanupEnd 0, .wake 1, .deliver 1]
+    (s.disk, s.registry, s.conns.map (·.phase)) =
+      ({ dir := true, config := .full 4, metaSt := .full 2, edb := .full 7 }, some 1, [.done, .serving]) := by
+  decide
 
 end SSEPy.C12
